@@ -121,6 +121,27 @@ macro_rules! rot_suite {
             logic::rot_entries::<$T>(cx!(t, m4n), "rot/compose", "Mat4::from_quat(q) * Mat4::from_quat(p)", &block9(&(m4 * $M4::from_quat(p)).to_cols_array()), rqp, 3.0, ec, ctx)?;
             logic::rot_entries::<$T>(cx!(t, an), "rot/compose", "Affine3A::from_quat(q * p)", &block9a(&$A::from_quat(qp).to_cols_array()), rqp, 2.0, ec, ctx)?;
             logic::rot_entries::<$T>(cx!(t, an), "rot/compose", "Affine3A::from_quat(q) * Affine3A::from_quat(p)", &block9a(&(a * $A::from_quat(p)).to_cols_array()), rqp, 3.0, ec, ctx)?;
+            // every way of writing the composite converts to the same matrix
+            {
+                let l = [q, p];
+                let mut acc = q;
+                acc *= p;
+                let forms: [(&str, $Q); 4] = [
+                    ("Mat3::from_quat(q.mul_quat(p))", q.mul_quat(p)),
+                    ("Mat3::from_quat(q *= p)", acc),
+                    ("Mat3::from_quat([q, p].into_iter().product())", l.iter().copied().product()),
+                    ("Mat3::from_quat([q, p].iter().product())", l.iter().product()),
+                ];
+                for (name, x) in forms {
+                    logic::rot_entries::<$T>(cx!(t, m3n), "rot/compose", name, &$M3::from_quat(x).to_cols_array(), rqp, 2.0, ec, ctx)?;
+                }
+                let ml = [m3, $M3::from_quat(p)];
+                logic::rot_entries::<$T>(cx!(t, m3n), "rot/compose", "[Mat3::from_quat(q), Mat3::from_quat(p)].iter().product()", &ml.iter().product::<$M3>().to_cols_array(), rqp, 3.0, ec, ctx)?;
+                let ml = [m4, $M4::from_quat(p)];
+                logic::rot_entries::<$T>(cx!(t, m4n), "rot/compose", "[Mat4::from_quat(q), Mat4::from_quat(p)].iter().product()", &block9(&ml.iter().product::<$M4>().to_cols_array()), rqp, 3.0, ec, ctx)?;
+                let al = [a, $A::from_quat(p)];
+                logic::rot_entries::<$T>(cx!(t, an), "rot/compose", "[Affine3A::from_quat(q), Affine3A::from_quat(p)].iter().product()", &block9a(&al.iter().product::<$A>().to_cols_array()), rqp, 3.0, ec, ctx)?;
+            }
             // ... and with inversion
             logic::rot_entries::<$T>(cx!(t, m3n), "rot/inverse", "Mat3::from_quat(q.inverse())", &$M3::from_quat(q.inverse()).to_cols_array(), rt, 2.0, eq, ctx)?;
             logic::rot_entries::<$T>(cx!(t, m3n), "rot/inverse", "Mat3::from_quat(q).inverse()", &m3.inverse().to_cols_array(), rt, 2.0, eq, ctx)?;
@@ -132,6 +153,9 @@ macro_rules! rot_suite {
             Ok(())
         }
     };
+}
+fn prod_ref<T: Copy + for<'a> core::iter::Product<&'a T>>(l: &[T]) -> T {
+    l.iter().product()
 }
 rot_suite!(check_rot_f32, f32, Quat, Vec3, Mat3, Mat4, Affine3A);
 rot_suite!(check_rot_f64, f64, DQuat, DVec3, DMat3, DMat4, DAffine3);
@@ -459,6 +483,11 @@ pub fn check_edges3(w: &[u64], t: &mut Tally) -> Result<(), Fail> {
                 let mut acc = ga;
                 acc *= gb;
                 logic::entries_within::<4>(cx!(t, $an), "affine3/compose", "a *= b", &O3::raw(&$M4::from(acc).into()), &prod, &tol, &ctx)?;
+                let al = [ga, gb];
+                let ml = [$M4::from(ga), $M4::from(gb)];
+                logic::entries_within::<4>(cx!(t, $an), "affine3/compose", "Mat4::from([a, b].iter().product())", &O3::raw(&$M4::from(al.iter().product::<$A>()).into()), &prod, &tol, &ctx)?;
+                logic::entries_within::<4>(cx!(t, $an), "affine3/compose", "[Mat4::from(a), Mat4::from(b)].iter().product()", &O3::raw(&ml.iter().product::<$M4>().into()), &prod, &tol, &ctx)?;
+                logic::entries_within::<4>(cx!(t, $an), "affine3/compose", "[Mat4::from(a), Mat4::from(b)].into_iter().product()", &O3::raw(&ml.iter().copied().product::<$M4>().into()), &prod, &tol, &ctx)?;
                 // inverse: entries of the linear block to K u kappa(L) |L^-1|, of the translation to the same times |t|
                 let mut lin = ra.m;
                 for i in 0..3 {
@@ -771,6 +800,8 @@ pub fn check_edges2(w: &[u64], t: &mut Tally) -> Result<(), Fail> {
                 let mut acc = ga;
                 acc *= gb;
                 logic::entries_within::<3>(cx!(t, $an), "affine2/compose", "a *= b", &O2::raw(&$M3::from(acc).into()), &prod, &tol, &ctx)?;
+                logic::entries_within::<3>(cx!(t, $an), "affine2/compose", concat!($mn, "::from([a, b].iter().product())"), &O2::raw(&$M3::from(prod_ref(&[ga, gb])).into()), &prod, &tol, &ctx)?;
+                logic::entries_within::<3>(cx!(t, $an), "affine2/compose", concat!("[", $mn, "::from(a), ", $mn, "::from(b)].iter().product()"), &O2::raw(&prod_ref(&[$M3::from(ga), $M3::from(gb)]).into()), &prod, &tol, &ctx)?;
                 let mut lin = ra.m;
                 for i in 0..2 {
                     lin.0[2][i] = Q::zero();
